@@ -42,7 +42,7 @@ func globalWrites(p *core.Program, a *pea.Analysis) map[string]*pea.Effect {
 
 // C12: Apply is safe for concurrent use.
 func C12(p *core.Program, r *core.Report) {
-	r.Explanation = "A data race (or a result that depends on other calls) needs a location touched by two calls, one of them writing. G1: using the provenance & effects analysis, no function reachable from the entry points writes memory reachable from a package-level variable (stores, map updates, append/copy/sort into it, mutating standard-library methods such as (*bytes.Buffer).Write on it), except inside functions that only run under (*sync.Once).Do or entries of the reviewed table. G2: arguments are only read (the C10 result, re-evaluated here). G3: module code starts no goroutines and uses no channels or sync primitives, so memory allocated by a call stays private to it. G4: module packages import neither unsafe nor reflect nor cgo, so the analysis sees every store. G5: nothing but timing data depends on the clock (no goroutines, random numbers, environment values either; shared with C11-D2) - under load a call is slower, not different."
+	r.Explanation = "A data race (or a result that depends on other calls) needs a location touched by two calls, one of them writing. G1: using the provenance & effects analysis, no function reachable from the entry points writes memory reachable from a package-level variable (stores, map updates, append/copy/sort into it, mutating standard-library methods such as (*bytes.Buffer).Write on it), except inside functions that only run under (*sync.Once).Do or entries of the reviewed table. G2: arguments are only read (the C10 result, re-evaluated here). G3: module code starts no goroutines and uses no channels or sync primitives, so memory allocated by a call stays private to it. G4: module packages import neither unsafe nor reflect nor cgo, so the analysis sees every store. G5: nothing but timing data depends on the clock (no goroutines, random numbers, environment values either; shared with C11-D2) - under load a call is slower, not different. G1 follows records handed out by pointer: a field store through a pointer parameter is summarised symbolically and instantiated at every call site, so a store into a record that came out of a package-level table is reported at the store, whatever path the pointer took through fields and slices."
 	r.NotCovered = "internals of the standard library (trusted to honour their documented concurrency contracts: regexp, sync.Pool, os.File, net/http); scheduling-dependent timing values (TimingInfo is excluded by the property)."
 	r.Trusted = append(r.Trusted, "standard library concurrency contracts", "external model of standard-library mutators (pointer-receiver methods mutate their receiver unless the type is documented safe/immutable)")
 
